@@ -14,6 +14,16 @@
     * `AddMissingStageDirs` makes the set parent-closed (`addMissing_parent_closed_partial`;
       hypothesis: on the names present `path.Dir` agrees with cutting at the last slash, i.e.
       names are clean), with `dir.length + 1` loop iterations sufficing (`addChain_fuel`),
+    * FULL, over the whole pipeline: member names that are clean absolute paths (`CleanAbs`:
+      what `parseLine` yields since the fix "add-files names are cleaned",
+      `Lc.Props.C17.parseLine_name_clean`) stay so through every step (`pipeline_names_clean`);
+      on clean names `path.Dir` is the cut at the last slash (`pathDir_of_clean`), so
+      `AddMissingStageDirs` closes the set under parents without further hypothesis and adds
+      nothing but ancestors of members (`addMissing_parent_closed`,
+      `addMissing_adds_only_ancestors`); since `getStageFileList` ends with
+      `AddMissingStageDirs(); Finalize()`, in the list of every successful run every member is
+      preceded by each of its ancestor directories (`parents_precede`), and so it is in the
+      archive, under `./` (`archive_parents_precede`),
     * the `fixHardlinks` scan turns an entry into a hard link only to an earlier regular-file
       entry of the same inode (`hardlink_earlier_same_inode`),
     * omit lines (plain and wildcard) and `ExcludeFiles` remove exactly the named members
@@ -24,10 +34,12 @@
   (`Spec.Stage.expectedNames`), which the driver evaluates on the real archive.
 -/
 import Lc.Lemmas.StageClosure
+import Lc.Lemmas.StageClosed
 import Lc.Spec.Stage
 
 namespace Lc.Props.C06
 open Lc Lc.Stage
+open Lc.TreeWF (CleanAbs)
 
 /-- the names of `fl.Files` after `Finalize` -/
 def fileNames (m : EMap) : List Bytes := EMap.names (finalize m)
@@ -116,6 +128,104 @@ theorem addMissing_parent_closed_partial (env : Env) (m m' : EMap)
   · rw [hnd] at hp
     exact (b2 d hd).2 p (Anc.step hp)
   · exact (b2 d hd).2 p (hnd.snoc hp)
+
+/-! ### the full statements: clean names through the whole pipeline -/
+
+/-- **`path.Dir` on clean names.**  For a clean absolute member name (`CleanAbs n`:
+    `path.Clean n = n`, leading slash) the loop step of `AddMissingStageDirs` — cut at the last
+    slash — yields exactly `path.Dir n`, and that is a clean absolute name again.  This is the
+    hypothesis `hclean` of `addMissing_parent_closed_partial`, now derived.  (For `n = "/"` and
+    for names directly below the root there is no loop step: `parentOf n = none`.) -/
+theorem pathDir_of_clean (n p : Bytes) (hn : CleanAbs n) (hp : parentOf n = some p) :
+    pathDir n = p ∧ CleanAbs p :=
+  Lc.Stage.pathDir_of_clean hn hp
+
+/-- **Names stay clean.**  Every step keeps "all member names are clean absolute paths" as
+    long as the names the step itself brings in are (`StepClean`: the entry name of an add, the
+    new name of a cloned device node, the candidates of the symlink recovery; deletions,
+    exclusion and `AddMissingStageDirs` need nothing) — hence every map a run can produce. -/
+theorem pipeline_names_clean (env : Env) (steps : List Step) (s : St)
+    (hsteps : ∀ x ∈ steps, StepClean x) (h : runSteps env {} steps = .ok s) : NamesClean s.map :=
+  runSteps_clean steps h NamesClean.nil hsteps
+
+/-- **`AddMissingStageDirs` closes the set under parent directories** (full): from a map whose
+    names are clean absolute paths it yields a map that keeps every member, whose names are
+    clean absolute paths again, and in which the parent of every member is a member. -/
+theorem addMissing_parent_closed (env : Env) (m m' : EMap) (hc : NamesClean m)
+    (h : addMissingStageDirs env m = .ok m') :
+    NamesClean m' ∧ (∀ n, n ∈ m.names → n ∈ m'.names) ∧
+    (∀ n ∈ m'.names, ∀ p, parentOf n = some p → p ∈ m'.names) := by
+  have hp := addMissing_parent_closed_partial env m m' h (fun e he p hpar =>
+    (Lc.Stage.pathDir_of_clean (hc e.name (List.mem_map.mpr ⟨e, he, rfl⟩)) hpar).1)
+  exact ⟨addMissing_clean h hc, hp.1, hp.2⟩
+
+/-- … and it adds nothing else: a member of the result was a member before, or is an ancestor
+    directory of one, or is the root `/` (added when a member lies directly below it). -/
+theorem addMissing_adds_only_ancestors (env : Env) (m m' : EMap) (hc : NamesClean m)
+    (h : addMissingStageDirs env m = .ok m') :
+    ∀ n ∈ m'.names, n ∈ m.names ∨ n = [SLASH] ∨ ∃ x ∈ m.names, Anc n x := by
+  unfold addMissingStageDirs at h
+  simp only at h
+  obtain ⟨_, _, b3⟩ := addChains_spec _ h
+  intro n hn
+  rcases b3 n hn with h0 | ⟨d, hd, hnd⟩
+  · exact Or.inl h0
+  · obtain ⟨e, he, hed⟩ := List.mem_map.mp (List.mem_filter.mp hd).1
+    have hem : e.name ∈ m.names := List.mem_map.mpr ⟨e, he, rfl⟩
+    rcases pathDir_clean_cases (hc e.name hem) with hroot | hpar
+    · -- `path.Dir` is the root: only the root itself is added
+      rw [hed] at hroot
+      rcases hnd with e1 | ha
+      · exact Or.inr (Or.inl (by rw [e1, hroot]))
+      · rw [hroot] at ha; exact absurd ha (not_anc_root n)
+    · rw [hed] at hpar
+      rcases hnd with e1 | ha
+      · exact Or.inr (Or.inr ⟨e.name, hem, by rw [e1]; exact Anc.step hpar⟩)
+      · exact Or.inr (Or.inr ⟨e.name, hem, Anc.trans hpar ha⟩)
+
+/-- **Parents precede** (the sentence of the property, full).  `getStageFileList` ends with
+    `AddMissingStageDirs(); Finalize()` (step lists end with `.closure`).  For every
+    environment and every step list whose own names are clean absolute paths: if the run
+    succeeds, then in `fl.Files` every member `n` is preceded by every ancestor directory `d`
+    of `n` (`Anc d n`: cut `n` at a last slash one or more times, the root excluded — see
+    `root_precedes`); in particular every ancestor IS a member.  No hypothesis on the map, on
+    the deletions or on the file system. -/
+theorem parents_precede (env : Env) (steps : List Step) (files : List Entry)
+    (hsteps : ∀ x ∈ steps, StepClean x)
+    (h : stageFileList env (steps ++ [.closure]) = .ok files) :
+    ∀ n ∈ EMap.names files, ∀ d, Anc d n → Before (EMap.names files) d n := by
+  obtain ⟨s, hs, hf⟩ := except_map_ok h
+  have hok := pipeline_invariant env _ s hs
+  obtain ⟨s1, h1, h2⟩ := runSteps_append steps [.closure] hs
+  have hc1 : NamesClean s1.map := pipeline_names_clean env steps s1 hsteps h1
+  -- the last step
+  simp only [runSteps] at h2
+  split at h2
+  · cases h2
+  · rename_i s2 h3
+    cases h2
+    obtain ⟨m', h4, h5⟩ := except_map_ok h3
+    have hclosed := (addMissing_parent_closed env s1.map m' hc1 h4).2.2
+    have hmap : s.map = m' := by rw [← h5]
+    rw [← hf]
+    rw [← hmap] at hclosed
+    exact parents_precede_partial s.map hok hclosed
+
+/-- the same for the member names of the run: all are clean absolute paths -/
+theorem stageFileList_names_clean (env : Env) (steps : List Step) (files : List Entry)
+    (hsteps : ∀ x ∈ steps, StepClean x)
+    (h : stageFileList env (steps ++ [.closure]) = .ok files) :
+    ∀ n ∈ EMap.names files, CleanAbs n := by
+  obtain ⟨s, hs, hf⟩ := except_map_ok h
+  have hall : ∀ x ∈ steps ++ [.closure], StepClean x := by
+    intro x hx
+    rcases List.mem_append.mp hx with hx | hx
+    · exact hsteps x hx
+    · simp at hx; rw [hx]; trivial
+  have hc := pipeline_names_clean env _ s hall hs
+  intro n hn
+  rw [← hf] at hn
+  exact hc n ((finalize_same_names s.map n).mp hn)
 
 /-- The root member: it is added as soon as some member lies directly below `/`. -/
 theorem addMissing_root (env : Env) (m m' : EMap) (h : addMissingStageDirs env m = .ok m')
@@ -300,6 +410,31 @@ theorem members_dot_relative : ∀ (files : List Entry) (hs : List Header),
       obtain ⟨tl, htl, hcons⟩ := except_map_ok h
       rw [← hcons, List.map_cons, List.map_cons, ih tl htl, hname e hd hh]
 
+/-- **Parents precede, in the archive.**  The member sequence `MakeTar` writes for the list of
+    a successful run: every member name is `./…` (relative under `./`), and the member of
+    every ancestor directory of a member stands earlier in the archive. -/
+theorem archive_parents_precede (env : Env) (steps : List Step) (files : List Entry)
+    (hdrs : List Header) (hsteps : ∀ x ∈ steps, StepClean x)
+    (h : stageFileList env (steps ++ [.closure]) = .ok files)
+    (ht : tarHeaders files = .ok hdrs) :
+    (∀ hd ∈ hdrs, ∃ r, hd.name = 46 :: SLASH :: r) ∧
+    (∀ n ∈ EMap.names files, ∀ d, Anc d n →
+      Before (hdrs.map (·.name)) (46 :: d) (46 :: n)) := by
+  have hnames := members_dot_relative files hdrs ht
+  constructor
+  · intro hd hhd
+    have : hd.name ∈ files.map (fun e => 46 :: e.name) := by
+      rw [← hnames]; exact List.mem_map.mpr ⟨hd, hhd, rfl⟩
+    obtain ⟨e, he, hen⟩ := List.mem_map.mp this
+    obtain ⟨r, hr⟩ := cleanAbs_head
+      (stageFileList_names_clean env steps files hsteps h e.name (List.mem_map.mpr ⟨e, he, rfl⟩))
+    exact ⟨r, by rw [← hen, hr]⟩
+  · intro n hn d hd
+    have hb := Before.map (fun x => 46 :: x) (parents_precede env steps files hsteps h n hn d hd)
+    have e : hdrs.map (·.name) = (EMap.names files).map (fun x => 46 :: x) := by
+      rw [hnames]; unfold EMap.names; rw [List.map_map]; rfl
+    rw [e]; exact hb
+
 /-! ### non-vacuity: the hypotheses are met by concrete, non-trivial instances -/
 
 def exA : Entry := { ltype := ltFile, name := b!"/usr/lib/a/x", devino := some (1, 7) }
@@ -321,5 +456,53 @@ example : Anc b!"/usr" b!"/usr/lib/a/x" :=
   Anc.trans (p := b!"/usr/lib/a") (by decide) (Anc.trans (p := b!"/usr/lib") (by decide) (Anc.step (by decide)))
 example : pathDir b!"/usr/lib/a/x" = b!"/usr/lib/a" := by decide
 example : removeFile exMap b!"/usr/lib/a-b" = .ok [exA, exC, exD, exE] := by rfl
+
+/-! #### the full theorems on a concrete run: a file below three absent directories, a
+    directory that is deleted again while it still has a member, a symlink in another tree -/
+
+def exStat : Lstat :=
+  { mode := 0o100644, uid := 0, gid := 0, mtime := 5, size := 3, nlink := 1, dev := 1, ino := 9,
+    rdev := 0, link := [], xattrs := [], sha := "" }
+/-- build root `/r` in which only `/r/usr/lib/a/x` exists (a regular file) -/
+def exEnv : Env :=
+  { fs := fun p => if p = b!"/r/usr/lib/a/x" then some exStat else none, rootDir := b!"/r" }
+def exSteps : List Step :=
+  [ .add { ltype := ltFile, name := b!"/usr/lib/a/x" },
+    .add { ltype := ltDir, name := b!"/usr/lib/a" },
+    .add { ltype := ltSymlink, name := b!"/etc/rc", target := b!"init.d/rc" },
+    .add { ltype := ltDir, name := b!"/top" },
+    .del b!"/usr/lib/a" ]
+
+example : ∀ x ∈ exSteps, StepClean x := by decide
+/-- before the closing step the set is NOT parent-closed (`/usr/lib/a` was deleted, `/etc`,
+    `/usr`, `/usr/lib` were never there) -/
+example : (runSteps exEnv {} exSteps).map (fun s => s.map.names) =
+    .ok [b!"/usr/lib/a/x", b!"/etc/rc", b!"/top"] := by decide
+/-- the run succeeds; the closing step brings back `/usr/lib/a` and adds the other parents,
+    and the root (because `/top` lies directly below it) -/
+example : (stageFileList exEnv (exSteps ++ [.closure])).map EMap.names =
+    .ok [b!"/", b!"/etc", b!"/etc/rc", b!"/top", b!"/usr", b!"/usr/lib", b!"/usr/lib/a",
+         b!"/usr/lib/a/x"] := by decide
+example : ∃ files, stageFileList exEnv (exSteps ++ [.closure]) = .ok files ∧
+    Before (EMap.names files) b!"/usr" b!"/usr/lib/a/x" := by
+  have hr : (stageFileList exEnv (exSteps ++ [.closure])).map EMap.names =
+      .ok [b!"/", b!"/etc", b!"/etc/rc", b!"/top", b!"/usr", b!"/usr/lib", b!"/usr/lib/a",
+           b!"/usr/lib/a/x"] := by decide
+  cases h : stageFileList exEnv (exSteps ++ [.closure]) with
+  | error e => rw [h] at hr; cases hr
+  | ok files =>
+    rw [h] at hr
+    have hr' : (Except.ok (EMap.names files) : Res (List Bytes)) = _ := hr
+    injection hr' with hn
+    refine ⟨files, rfl, parents_precede exEnv exSteps files (by decide) h _ ?_ _ ?_⟩
+    · rw [hn]; decide
+    · exact Anc.trans (p := b!"/usr/lib/a") (by decide)
+        (Anc.trans (p := b!"/usr/lib") (by decide) (Anc.step (by decide)))
+example : CleanAbs b!"/usr/lib/a/x" ∧ ¬ CleanAbs b!"/usr/lib/a/" ∧ ¬ CleanAbs b!"/usr//lib" ∧
+    ¬ CleanAbs b!"/usr/./lib" ∧ ¬ CleanAbs b!"/usr/a/../lib" ∧ ¬ CleanAbs b!"usr/lib" ∧
+    CleanAbs b!"/" := by decide
+/-- on a name that is not clean the two notions of parent differ (why `CleanAbs` is needed) -/
+example : parentOf b!"/opt/a/../x" = some b!"/opt/a/.." ∧ pathDir b!"/opt/a/../x" = b!"/opt" := by
+  decide
 
 end Lc.Props.C06
